@@ -99,7 +99,21 @@ def block_matmul_rule(rep: Report, rule: str, fi: FuncInfo, closure_name: Option
         if not (isinstance(m["_A"], ast.Name) and m["_A"].id in params):
             rep.undecided(rule, cl, construct, "left operand is not the block argument", node=r)
         elif attr is None or not attr.startswith("self."):
-            rep.undecided(rule, cl, construct, "right operand is not a buffer of the encoder", node=r)
+            # recognised wrong idiom: the operand is a memoised copy taken from a container of the object
+            bname = m["_B"].id if isinstance(m["_B"], ast.Name) else None
+            memo = False
+            if bname is not None:
+                for a_ in ast.walk(cl.node):
+                    if isinstance(a_, ast.Assign) and any(isinstance(t_, ast.Name) and t_.id == bname for t_ in a_.targets):
+                        v_ = a_.value
+                        if isinstance(v_, ast.Call) and isinstance(v_.func, ast.Attribute) and v_.func.attr in ("get", "setdefault") and (attr_chain(v_.func.value) or "").startswith("self."):
+                            memo = True
+                        if isinstance(v_, ast.Subscript) and (attr_chain(v_.value) or "").startswith("self.") and not isinstance(v_.slice, (ast.Slice, ast.Tuple)) and isinstance(v_.slice, ast.Name):
+                            memo = True
+            if memo:
+                rep.violation(rule, cl, construct, f"the product uses `{bname}`, a memoised copy looked up in a container of the encoder, not the published matrix buffer: after the buffer is updated in place (load_state_dict, copy_) the encoder keeps multiplying by the old matrix while generator_matrix / check_matrix publish the new one", node=r)
+            else:
+                rep.undecided(rule, cl, construct, "right operand is not a buffer of the encoder", node=r)
         elif attr != want_attr:
             rep.violation(rule, cl, construct, f"the block is multiplied by `{attr}` instead of the published `{want_attr}`", node=r)
         elif tr != want_transposed:
